@@ -261,7 +261,9 @@ func (r *Runner) exec(ctx boltz.MutateContext, s *Step, salt int) (ret string, e
 	case "rcInc", "rcDec":
 		key := tok.Real(str(a["key"]))
 		var n int
-		fromTeam := salt%2 == 1 && s.res() == "ok" // the collection is symmetric: drive it from either side
+		// the collection is symmetric: drive it from either side -- but only when both entities exist (the model's
+		// step is the call from the people side, where only the person has to exist)
+		fromTeam := salt%2 == 1 && s.res() == "ok" && modelRet(s) != "absent"
 		switch {
 		case s.op() == "rcInc" && !fromTeam:
 			n, err = S.People.Rc.IncrementLinkCount(tx, []byte(id), []byte(key))
